@@ -356,6 +356,46 @@ func runConfig(c config) {
 	run.Count("frames_exchanged", vc.FramesIn+vc.FramesOut)
 	run.Count("bytes_exchanged", vc.BytesIn+vc.BytesOut)
 	run.Count("configurations_completed", 1)
+
+	// --- every third configuration: the controller was reset and pairs again under the SAME identifier with a NEW
+	// key pair (the accessory has used the old pairing in this process); the exchange must work for this identity too
+	if c.seed%3 != 0 {
+		return
+	}
+	again := refctl.NewIdentity(me.ID, rnd)
+	rc, err := refctl.Dial(a.Addr)
+	if err != nil {
+		run.Inconclusive("dial: " + err.Error())
+		return
+	}
+	rc.Timeout = 10 * time.Second
+	s2, err := rc.PairSetup(again, a.Code(), rnd)
+	rc.Close()
+	if err != nil {
+		if se, ok := err.(*refctl.StageError); ok && se.Transport == nil && strings.Contains(se.Stage, "error") {
+			// an accessory may refuse pair-setup while it is paired (the specification's "unavailable"): nothing to check
+			run.Count("repair_refused_while_paired", 1)
+			return
+		}
+		fail(c, "re-pair:setup:"+stageSig(err), "a second pair-setup under the same identifier with a new key pair failed: "+err.Error(), nil)
+		return
+	}
+	rv, err := refctl.Dial(a.Addr)
+	if err != nil {
+		run.Inconclusive("dial: " + err.Error())
+		return
+	}
+	defer rv.Close()
+	rv.Timeout = 10 * time.Second
+	if _, err := rv.PairVerify(again, s2.AccessoryLTPK, s2.AccessoryID, rnd); err != nil {
+		fail(c, "re-pair:verify:"+stageSig(err), "pair-setup under the same identifier with a new key pair succeeded (M6 verified), but pair-verify with that key pair fails: "+err.Error(), nil)
+		return
+	}
+	if m, err := rv.Do("GET", "/accessories", "", nil); err != nil || m.Status != 200 {
+		fail(c, "re-pair:talk", fmt.Sprintf("after re-pairing GET /accessories fails: %v", err), nil)
+		return
+	}
+	run.Count("repairs_with_new_key_completed", 1)
 }
 
 func errClass(err error) string {
